@@ -130,7 +130,7 @@ LATER = {
     "C05": "Later additions: the host cancels an operation's context after the entry point returned; functions defined by acknowledged operations contain special operators; a bytes value belongs to the shared state and multi-element appends are refused on a middle or last element. Wave 6: calls refused while their arguments are bound (builtins, special operators, builtin macros, lambdas, malformed keyword lists) as a source of errors. Waves 7-8: callbacks that fail at their k-th call are counted (a failed callback is never called again; exposed defect D9, repaired); LoadFile/LoadLocation entry points; host builtins used as handlers and host panics whose payload is a lisp error, a Go error, an int or a runtime error. Wave 9: the inspection after every operation begins by checking that an error merely named internal-panic is still contained by ignore-errors and a catch-all.",
     "C06": "Later additions: interpreter condition names raised from lisp, handlers that change their data in place before rethrow, handlers named by unbound symbols, malformed host errors, and after every case no condition may be offered to a top-level rethrow. Waves 7-8: host builtins used as handlers (themselves fault points) and host panics whose payload is a lisp error value, the Go error of one, an int or a Go runtime error. Wave 9: package-qualified condition names.",
     "C08": "Later additions: lexical bindings named like special operators, macros, builtins and package functions used in operator position; the language package gains exports in mid-history (new packages start with them, existing ones keep what they have); nested loads through load-bytes. Wave 6: a refused in-package (non-string documentation argument), swallowed, followed by the well-formed call for the same possibly new package.",
-    "C09": "Later additions: abbreviated, incomplete and over-full special-form syntax (near-miss forms) and the values the interpreter hands out for type names, directly, in argument-type errors and through macro expansions. Wave 6: every runtime is constructed inside its scheduled goroutine (construction fills process-wide tables too); values made by libraries (validators, type objects, durations) placed inside macro expansions (which exposed defect D8, repaired). Waves 7-8: quoted literals built by macro expansions observed like written ones; insertion at the very end of a literal followed by in-place work; runtimes configured differently by their hosts (json options) with solo twins run before as well as after the interleaved run.",
+    "C09": "Later additions: abbreviated, incomplete and over-full special-form syntax (near-miss forms) and the values the interpreter hands out for type names, directly, in argument-type errors and through macro expansions. Wave 6: every runtime is constructed inside its scheduled goroutine (construction fills process-wide tables too); values made by libraries (validators, type objects, durations) placed inside macro expansions (which exposed defect D8, repaired). Waves 7-8: quoted literals built by macro expansions observed like written ones; insertion at the very end of a literal followed by in-place work; runtimes configured differently by their hosts (json options) with solo twins run before as well as after the interleaved run. Wave 9: in a sixth of the cases the shared parse is made by the format-preserving reader and loaded as a lisp.Program by every runtime (exposed defect D12, repaired).",
     "C10": "Later additions: well-formed and near-miss text for the library parsers, misspelt references with several equally near candidates, and process groups that also differ in TZ, LANG, LC_ALL, HOME and USER. Wave 6: a third of the forms report what the host would log for their error (message naming the refusing function, and trace) through sim:errtext; non-function values of the packages and user-defined types used where types or functions are expected; host natives that are pointers to structs full of pointers, printed, looked up through help and carried in errors. Waves 7-8: an interruption at a fixed poll (cancellation / expired deadline) or a small step budget in every repetition; one cached parse (lisp.Program) shared by the fresh runtimes of the repetitions, with in-place work on literals printed before and after.",
     "C11": "Later additions: stability of sorts under equal keys, single-argument concat, bytes appended from variables (also onto empty accumulators), and reach-in follow-ups that take an element container out of a container, change it in place and inspect both. Waves 7-8: forms that hand back the very value they were given; get-default/key?; insert-sorted of container items ordered by length (the caller's own value ends up in the result).",
     "C15": "Later additions: a context that reports a deadline, has no Done channel and whose Err stays nil after the deadline; durations at the ends of the int64 range; time-elapsed compared with time-from. Wave 6: the ceiling configured by assigning Runtime.MaxSleep or by re-applying the option after a looser one; a second sleep inside a handler for context-cancelled around the first. Waves 7-8: sleeps in sources loaded by load-string/load-bytes from function bodies; runtimes assembled as composite literals (NewEnvRuntime); sleeps through an embedder's one-formal binding of libtime.BuiltinSleep.",
